@@ -4,11 +4,13 @@
     run <kind>/<topic hex>/<mws> <script>+
         kind   pub | dis | disdeco | nil     (AddHandler+publisher | AddNoPublisherHandler | the same with a
                                               recording publisher decorator | AddHandler with a nil publisher)
-        mws    -  or a word over {p,o,P,O}: middlewares in registration order (first = outermost),
-               p = passthrough, o = appends one output (id 100+position) to whatever the inner handler returned;
+        mws    -  or a word over {p,o,r,P,O,R}: middlewares in registration order (first = outermost),
+               p = passthrough, o = appends one output (id 100+position) to whatever the inner handler returned,
+               r = copies the outputs into a fresh slice (empty but NON-NIL when there are none);
                lower case = router level (Router.AddMiddleware), upper case = handler level (Handler.AddMiddleware)
-        script <self>.<result>.<pub>   self: - a n    result: r<k> e<k> c<k> pv pe pn    pub: ok err panic
-               (e = plain error, c = context.Canceled, both with k outputs next to the error)
+        script <self>.<result>.<pub>   self: - a n    result: r<k> z0 e<k> c<k> pv pe pn    pub: ok err panic rej<k>
+               (r0 = nil slice, z0 = empty NON-NIL slice; e = plain error, c = context.Canceled, both with k outputs
+                next to the error; rej<k> = the publisher refuses exactly the calls that contain output id k)
 
   Observation: one word per message, events joined by `;`
         H                         handler entered
@@ -40,6 +42,7 @@ def parseMws (s : String) : Option (List (Mw Nat)) :=
   (s.toList.zipIdx).mapM (fun (c, i) =>
     match c with
     | 'p' | 'P' => some Mw.pass                    -- upper case: the same middleware registered on the handler
+    | 'r' | 'R' => some Mw.rebuild
     | 'o' | 'O' => some (Mw.addOut (100 + i))
     | _ => none)
 
@@ -57,9 +60,16 @@ def parseCfg (s : String) : Option DCfg :=
     | _ => none
   | _ => none
 
+/-- scripted publisher: a fixed verdict, or "refuse the call iff it contains output `k`" -/
+inductive PubSpec | fixed (p : PubOutcome) | rejectIf (k : Nat)
+
+def PubSpec.verdict : PubSpec → List Nat → PubOutcome
+  | .fixed p, _ => p
+  | .rejectIf k, ms => if ms.contains k then .error else .accept
+
 structure Script where
   o : Outcome Nat
-  p : PubOutcome
+  p : PubSpec
 
 def parseSelf : String → Option (Option Settle)
   | "-" => some none | "a" => some (some .ack) | "n" => some (some .nack) | _ => none
@@ -76,14 +86,21 @@ def parseResult (s : String) : Option (Result Nat) :=
       if k > 1000 then none else
       match c with
       | 'r' => some (.returns (List.range k) false)
+      | 'z' => if k = 0 then some (.returns [] false) else none
       | 'e' => some (.returns (List.range k) true)
       | 'c' => some (.returns (List.range k) true)
       | _ => none
     | none => none
   | _ => none
 
-def parsePub : String → Option PubOutcome
-  | "ok" => some .accept | "err" => some .error | "panic" => some .panic | _ => none
+def parsePub (s : String) : Option PubSpec :=
+  match s with
+  | "ok" => some (.fixed .accept) | "err" => some (.fixed .error) | "panic" => some (.fixed .panic)
+  | _ =>
+    if s.startsWith "rej" then
+      let ds := (s.drop 3).toString
+      if ds.isEmpty || !ds.toList.all Char.isDigit then none else ds.toNat?.map .rejectIf
+    else none
 
 def parseScript (s : String) : Option Script :=
   match s.splitOn "." with
@@ -131,7 +148,7 @@ def observeAux (d : DCfg) : Ack.St → List (Effect Nat) → List String
     here ++ observeAux d s' rest
 
 def modelObs (d : DCfg) (sc : Script) : String :=
-  ";".intercalate (observeAux d (Ack.initSt .new) (handle d.cfg (chain d.mws sc.o) sc.p))
+  ";".intercalate (observeAux d (Ack.initSt .new) (handleWith d.cfg (chain d.mws sc.o) sc.p.verdict))
 
 /-! ## property monitor: the statement of C02 evaluated on an observation -/
 
@@ -199,7 +216,7 @@ def parseObs (w : String) : Option Obs := do
 /-- outputs the chain returns, computed from the script directly (handler ids 0..k-1, then the `o`
     middlewares from the innermost to the outermost) -/
 def chainOuts (mws : List (Mw Nat)) (k : Nat) : List Nat :=
-  List.range k ++ (mws.filterMap (fun m => match m with | .addOut x => some x | .pass => none)).reverse
+  List.range k ++ (mws.filterMap (fun m => match m with | .addOut x => some x | _ => none)).reverse
 
 def monitor1 (d : DCfg) (sc : Script) (w : String) : String :=
   match parseObs w with
